@@ -18,6 +18,7 @@ import (
 	"golang.org/x/crypto/nacl/box"
 	"golang.org/x/crypto/nacl/secretbox"
 	"verif/ref/aeadref"
+	"verif/ref/aeadsteer"
 	"verif/vf"
 )
 
@@ -155,6 +156,8 @@ func run(c *vf.Ctx) {
 	c.Rule("fault enumeration on genuine sealed messages: targets {ChaCha20-Poly1305, XChaCha20-Poly1305} x path{asm,generic}, secretbox.Open, box.Open, box.OpenAfterPrecomputation, box.OpenAnonymous; " +
 		"message lengths {0,1,15,16,17,63,64,65,255,256,257,1024} (NaCl also 31,32,33; thorough: every 0..300); faults = EVERY single-bit flip of sealed output / nonce / AD / key, truncation by 1..32 at either end, " +
 		"extension by 1..32 at either end (3 byte classes), every length 0..15, 2- and 4-byte overwrites at 8 positions x 3 patterns, AD<->ciphertext boundary shifts by 1..16, AD truncation/extension; " +
+		"plus the STEERED-ACCUMULATOR family (messages crafted with math/big so that the AEAD code's own Poly1305 accumulator has chosen limb values before the lengths block and before the final reduction, 15 lengths x AD {0,1,13,16,17} x both nonce sizes): " +
+		"genuine tag accepted; tag +-1 in either 64-bit half and the tags obtained by dropping/duplicating the carry out of the low or middle limb when the lengths block is added are rejected (dst nil and in place); " +
 		"each fault opened with dst{prefix+poisoned spare capacity, nil, in place}; non-trivial = distinct (target,length,field,fault kind,byte position); " +
 		"oracle: error/false, no plaintext returned, and for ChaCha20-Poly1305 the would-be plaintext region of dst is all zero or untouched")
 	c.Assume("forgeries that need more than the enumerated modifications are a MAC-security question, not enumerated")
@@ -202,8 +205,16 @@ func aeadPart(c *vf.Ctx) {
 	}
 	phases = append(phases, phase{"generic", false})
 
+	// steered-accumulator family (see verif/ref/aeadsteer): genuine messages whose Poly1305
+	// accumulator inside the AEAD code sits on chosen limb values when the lengths block is added
+	// and when the final reduction happens
+	steered, attempted := aeadsteer.Family(c, 32)
+	c.Set("steered_cases", len(steered))
+	c.Set("steered_targets_attempted", attempted)
+
 	for _, ph := range phases {
 		chacha20poly1305.VerifC01SetAVX2(ph.avx2)
+		runSteered(c, ph.name, steered)
 		c.ParallelFor(len(units), func(ui int) {
 			u := units[ui]
 			va := variants[u.v]
@@ -348,6 +359,78 @@ func aeadPart(c *vf.Ctx) {
 			}
 		})
 	}
+}
+
+// runSteered: for every crafted message Open must accept exactly the RFC 8439 tag: the genuine
+// message opens, and the tags a misplaced/dropped carry would produce or accept are rejected.
+func runSteered(c *vf.Ctx, path string, cases []*aeadsteer.Case) {
+	c.ParallelFor(len(cases), func(i int) {
+		sc := cases[i]
+		vname, mk := "chacha20poly1305", chacha20poly1305.New
+		if len(sc.Nonce) == chacha20poly1305.NonceSizeX {
+			vname, mk = "xchacha20poly1305", chacha20poly1305.NewX
+		}
+		tgt := vname + "/" + path
+		aead, err := mk(sc.Key)
+		if err != nil {
+			c.Violation(tgt+": constructor rejects a 32-byte key", err.Error())
+			return
+		}
+		n := len(sc.Ciphertext)
+		det := func(fault string) map[string]any {
+			return map[string]any{"target": tgt, "len": n, "adLen": len(sc.AD), "steered": sc.Stage.String(), "accumulator_target": sc.Target.Name, "fault": fault,
+				"accumulator_before_lengths_block": fmt.Sprintf("%x", sc.HPre), "accumulator_before_final_reduction": fmt.Sprintf("%x", sc.VFinal),
+				"key": fmt.Sprintf("%x", sc.Key), "nonce": fmt.Sprintf("%x", sc.Nonce), "ad": fmt.Sprintf("%x", sc.AD), "ciphertext": fmt.Sprintf("%x", sc.Ciphertext), "genuine_tag": fmt.Sprintf("%x", sc.Tag)}
+		}
+		open := func(tag [16]byte, inPlace bool) (out []byte, err error, panicked bool, pv any) {
+			in := append(append(make([]byte, 0, n+16), sc.Ciphertext...), tag[:]...)
+			var dst []byte
+			if inPlace {
+				dst = in[:0]
+			}
+			panicked, pv, _ = vf.Protect(func() { out, err = aead.Open(dst, sc.Nonce, in, sc.AD) })
+			return
+		}
+		for _, inPlace := range []bool{false, true} {
+			out, err, pn, pv := open(sc.Tag, inPlace)
+			c.Eval(1)
+			switch {
+			case pn:
+				c.Violation(tgt+": Open panics on a genuine steered message", map[string]any{"at": det("none"), "panic": fmt.Sprint(pv)})
+			case err != nil || !bytes.Equal(out, sc.Plaintext):
+				c.Violation(tgt+": genuine sealed message does not open (steered accumulator)", det("none"))
+			}
+			for name, forged := range sc.ForgedTags() {
+				out, err, pn, pv := open(forged, inPlace)
+				c.Eval(1)
+				switch {
+				case pn:
+					c.Violation(tgt+": Open panics on a forged tag", map[string]any{"at": det(name), "panic": fmt.Sprint(pv)})
+				case err == nil:
+					d := det(name)
+					d["accepted_tag"] = fmt.Sprintf("%x", forged)
+					c.Violation(tgt+": Open ACCEPTS a forged tag for a steered message ("+forgeClass(name)+")", d)
+				case len(out) != 0:
+					c.Violation(tgt+": Open returns bytes together with an error (steered message)", det(name))
+				}
+			}
+		}
+		c.Nontrivial(fmt.Sprintf("%s/steered/%d/%d/%s/%s", tgt, n, len(sc.AD), sc.Stage, sc.Target.Name))
+		if i%1499 == 0 {
+			c.Sample(map[string]any{"target": tgt, "steered": sc.Stage.String(), "accumulator_target": sc.Target.Name, "len": n, "adLen": len(sc.AD), "forged_tags": len(sc.ForgedTags())})
+		}
+	})
+	if len(cases) > 0 {
+		c.Outcome(path + ": steered messages: genuine accepted, forged tags rejected")
+	}
+}
+
+// forgeClass shortens a forged-tag name to a stable class fragment.
+func forgeClass(name string) string {
+	if len(name) > 4 && name[:4] == "tag " {
+		return "tag +-1 in a 64-bit half"
+	}
+	return name
 }
 
 func seq(from, n int) []byte {
